@@ -438,6 +438,11 @@ def check_shared_writes(ctx, w: World, om: OriginModel) -> None:
         _bad = lambda *a_, **k_: ctx.bad(*a_, **{**tag, **k_})
         _unk = lambda *a_, **k_: ctx.unk(*a_, **{**tag, **k_})
         _ok = lambda *a_, **k_: ctx.ok(*a_, **{**tag, **k_})
+        vague = [w.reached_by_name_only(x) for x in sws]
+        if all(vague):
+            _unk("C17.1", f"shared object {obj} may be modified by {owners[0]}", where,
+                 f"`{sw.origin_text}` in {sw.origin_func} is reached through a call whose receiver class is not known: {vague[0]}")
+            continue
         # (1) entries of a cache container initialised after they were stored
         if sw.field in cache_fields and all(x.depth >= 2 for x in sws):
             _unk("C17.1", f"entries of cache {obj} are modified after they were stored ({owners[0]})", where,
